@@ -2,6 +2,7 @@ package main
 
 import (
 	"fmt"
+	"go/constant"
 	"go/ast"
 	"go/token"
 	"go/types"
@@ -700,6 +701,56 @@ func (w *World) constEval(v ssa.Value, d int) (*big.Int, bool) {
 	return nil, false
 }
 
+// constStringGlobal: a string-typed package variable stored exactly once, in the
+// package initialiser, with a constant.
+func (w *World) constStringGlobal(g *ssa.Global) (string, bool) {
+	if g.Pkg == nil {
+		return "", false
+	}
+	if _, loaded := w.pkgs[g.Pkg.Pkg.Path()]; !loaded {
+		return "", false
+	}
+	var stores []*ssa.Store
+	bad := false
+	for _, m := range g.Pkg.Members {
+		if fn, ok := m.(*ssa.Function); ok {
+			w.scanStores(fn, g, &stores, &bad)
+		}
+	}
+	for _, m := range g.Pkg.Members {
+		if t, ok := m.(*ssa.Type); ok {
+			for _, recv := range []types.Type{t.Type(), types.NewPointer(t.Type())} {
+				ms := w.prog.MethodSets.MethodSet(recv)
+				for i := 0; i < ms.Len(); i++ {
+					if fn := w.prog.MethodValue(ms.At(i)); fn != nil && fn.Pkg == g.Pkg {
+						w.scanStores(fn, g, &stores, &bad)
+					}
+				}
+			}
+		}
+	}
+	if bad || len(stores) != 1 || stores[0].Parent().Name() != "init" {
+		return "", false
+	}
+	v := stores[0].Val
+	for {
+		switch t := v.(type) {
+		case *ssa.Convert:
+			v = t.X
+			continue
+		case *ssa.ChangeType:
+			v = t.X
+			continue
+		}
+		break
+	}
+	c, ok := v.(*ssa.Const)
+	if !ok || c.Value == nil || c.Value.Kind() != constant.String {
+		return "", false
+	}
+	return constant.StringVal(c.Value), true
+}
+
 // sentinelGlobal: an error-typed package variable initialised once by a call
 // (errors.New / fmt.Errorf), or any exported error variable of an external
 // package.
@@ -756,7 +807,28 @@ func (x *Exec) ghostCell(name string) *Cell {
 	return c
 }
 
+// sendCheck: gate obligations on channel sends (`sends <expr over sent>`).
+func (fr *Frame) sendCheck(st *State, v *Val, pos token.Pos, guard string) {
+	x := fr.x
+	top := x.top
+	if top == nil || top.contract == nil {
+		return
+	}
+	for _, c := range top.contract.Sends {
+		env := fr.specEnv(st)
+		env.vars = map[string]*Val{"sent": v}
+		env.lookup = func(s *State, name string) (*Val, bool) { return fr.lookupLocal(s, name, pos) }
+		g, err := env.evalBool(c.Expr)
+		if err != nil {
+			x.vc.diag("sends clause: %v", err)
+			g = "false"
+		}
+		x.oblige(st, "send", x.w.nodeTextAt(pos)+": "+c.Text, pos, tImp(guard, g), c.Tags, false)
+	}
+}
+
 func (w *World) sendHook(fr *Frame, st *State, in *ssa.Send) {
+	fr.sendCheck(st, fr.val(st, in.X), in.Pos(), "true")
 	x := fr.x
 	top := x.top
 	if top == nil || top.contract == nil {
